@@ -82,6 +82,7 @@ impl Runner for UnsyncRunner {
                 cache.invalidate_entries_if(move |k, v| p(k.k, v.v));
                 "-".to_string()
             }
+            "Q" => cache.verif_frequency(&TK::new(num(1), &cn)).to_string(),
             "D" => {
                 self.clock.advance(dur_ns(toks[1].parse().expect("bad duration")));
                 "-".to_string()
